@@ -245,6 +245,15 @@ func c04Render(c c04Case) (src string, invalid bool, want string, ok bool) {
 	}
 	rt := c04RefType(c.Ref)
 	var use string
+	// two more references to the same referent, one taken before and one after
+	// the laundered one ("every reference previously taken" must die, not just
+	// the first or the last); they are never used
+	w("let decoy1 = %s", refExpr)
+	defer func() {
+		if ok {
+			src = strings.Replace(src, "  log(\"t\")\n", "  let decoy2 = "+refExpr+"\n  log(\"t\")\n", 1)
+		}
+	}()
 	switch c.Launder {
 	case "array":
 		w("let refs: [&%s] = [%s]", rt, refExpr)
